@@ -804,6 +804,10 @@ def run_xr(case):
             + ", ".join(f"{k}={v!r}" for k, v in kw.items()) + ")")
     g = xx.odc.output_geobox(crs_arg, **kw)
     judge(r, S, loc, dst_enc, req, aenc, tight, tol, g, what)
+    gf = compute_output_geobox(gb, crs_arg, **kw)
+    if not same_answer(g, gb, gf, gb):
+        r.fail(f"entry-points-differ:xr:{S.kind}->{dst_enc}:{S.orient}:{S.extent}:tol={tol!r}",
+               f"{what} -> {g!r}, but compute_output_geobox with the same arguments -> {gf!r}")
     r.outcome = "xr:" + r.outcome
     return r
 
@@ -1256,6 +1260,8 @@ def odd_src(odd, kind, loc, orient, phase):
         A = Affine(rx, 0.0, x0, 0.0, ry, y1 - ny * ry)
     elif orient == "r180":
         A = Affine(-rx, 0.0, x0 + nx * rx, 0.0, ry, y1 - ny * ry)
+    elif orient == "r005":  # a rotation too small to see on one pixel: 17 pixels at the far end of 20000
+        A = Affine.translation(x0, y1) * Affine.rotation(0.05) * Affine.scale(rx, -ry)
     else:
         A = Affine.translation(x0, y1) * Affine.rotation(ROT) * Affine.scale(rx, -ry)
     S = Src()
@@ -1278,6 +1284,9 @@ def gen_odd(tier):
     reqs = (("res", "auto"), ("res", "fit"), ("shape", 50))
     yield from itertools.product(tuple(ODD), ("nu", "rot"), SRC_KINDS, ("eu",) + (("au",) if t else ()), ("whole",), DST4,
                                  reqs + ((("res", "same"), ("shape", (7, 40))) if t else ()), ("default",), TIGHT, (0.01,))
+    yield from itertools.product(("thin-row", "thin-col") + (("tiny", "portrait") if t else ()), ("r005",), SRC_KINDS, ("eu",), ("whole",),
+                                 DST4, (("res", "auto"), ("res", "fit")) + ((("res", "same"), ("shape", 50)) if t else ()),
+                                 ("default",), (False,) + ((True,) if t else ()), (0.01,))
     yield from itertools.product(("tiny", "wide-px") + (("tall-px", "portrait", "huge") if t else ()),
                                  ("nu", "mx", "su", "r180") + (("rot",) if t else ()), ("deg", "utmz") + (("merc",) if t else ()),
                                  ("eu",), PHASES, DST4, (("res", "auto"), ("res", "same"), ("res", ("s", 1.0))),
@@ -1404,6 +1413,16 @@ def _spell_crs(form, cid):
     return {"int": lambda: cid, "EPSG-upper": lambda: f"EPSG:{cid}", "Epsg-mixed": lambda: f"Epsg:{cid}", "pyproj": lambda: pc,
             "odc-CRS": lambda: CRS(f"epsg:{cid}"), "wkt2": pc.to_wkt, "wkt2+fit": pc.to_wkt, "wkt2+same": pc.to_wkt,
             "pyproj+shape": lambda: pc, "projjson-text": pc.to_json, "projjson-dict": pc.to_json_dict}[form]()
+
+
+def gen_stale(tier):
+    """WKT2 texts whose definition was edited while the trailing ID["EPSG",n] stayed: as target and as source CRS, against
+    the EPSG CRS the stale id names, against themselves (own CRS) and others; the result follows the DEFINITION"""
+    t = tier == "thorough"
+    yield from itertools.product(("cog", "to_crs"), ORIENT, ("stale:ea", "stale:utmz", "ea", "utmz", "deg"), ("eu",) + (("au",) if t else ()),
+                                 ("tile",), ((48, 64),), ("stale:ea", "stale:utmz", "ea", "utmz"),
+                                 RES3 + ((("shape", 50), ("res", ("s", 1.0))) if t else ()), ("default",) + (("center",) if t else ()),
+                                 (False,), (0.01,))
 
 
 def gen_spell(tier):
@@ -1700,6 +1719,9 @@ def slices(tier):
         S("spellings", gen_spell, run_spell,
           "one request in every accepted spelling of crs / source crs / resolution / shape / anchor / tol / round_resolution "
           "on the function, the method and the xarray accessor: same answer as the plain spelling through the function"),
+        S("stale-id-wkt", gen_stale, run_case,
+          "CRSs given as WKT2 whose false easting was moved by 250 km under an unchanged trailing ID[EPSG,n] (pyproj finds no "
+          "EPSG code for them): as source, as target, as both; against EPSG:n nothing is 'the own CRS'"),
         S("lazy-state", gen_lazy, run_lazy,
           "18 kinds of earlier use of the SAME source GeoBox object (lazy properties, footprints, earlier to_crs calls to "
           "this / other targets with other options, views, pickling, CRS helpers), then the request: every clause, and the "
